@@ -176,6 +176,21 @@ theorem orderedSib_paintRoot {t : Tree} (h : t.OrderedSib) : t.paintRoot.Ordered
   | leaf => trivial
   | node l e k r => exact h
 
+theorem popMax_isSome (l : Tree) (e : Entry) (k r : Tree) : ((Tree.node l e k r).popMax).isSome := by
+  simp only [Tree.popMax]
+  cases r.popMax with
+  | none => rfl
+  | some v => rfl
+
+theorem popMax_leaf_right (l : Tree) (e : Entry) (k : Tree) :
+    (Tree.node l e k .leaf).popMax = some (l.paintRoot, e, k) := rfl
+
+theorem popMax_node_right (l : Tree) (e : Entry) (k rl : Tree) (re : Entry) (rk rr r' : Tree) (p : Entry) (pk : Tree)
+    (h : (Tree.node rl re rk rr).popMax = some (r', p, pk)) :
+    (Tree.node l e k (.node rl re rk rr)).popMax = some (.node l e k r', p, pk) := by
+  simp only [Tree.popMax] at h ⊢
+  rw [h]
+
 structure PopSpec (t t' : Tree) (p : Entry) (pk : Tree) : Prop where
   found : t.OrderedSib → t.find? p.name = some (p, pk)
   isMax : t.OrderedSib → t'.AllSib (fun x => cmp x.name p.name = .lt)
@@ -191,7 +206,8 @@ theorem popMax_spec : ∀ (t t' : Tree) (p : Entry) (pk : Tree), t.popMax = some
     intro t' p pk h
     cases r with
     | leaf =>
-      simp only [Tree.popMax, Option.some.injEq, Prod.mk.injEq] at h
+      rw [popMax_leaf_right] at h
+      simp only [Option.some.injEq, Prod.mk.injEq] at h
       obtain ⟨rfl, rfl, rfl⟩ := h
       refine ⟨?_, ?_, ?_, ?_, ?_⟩
       · intro _; simp [Tree.find?, cmp_refl]
@@ -205,12 +221,12 @@ theorem popMax_spec : ∀ (t t' : Tree) (p : Entry) (pk : Tree), t.popMax = some
         | lt => rw [find?_node_lt hc]
         | gt => rw [find?_node_gt hc, find?_none_of_allSib_lt hlt (Or.inl hc)]; rfl
     | node rl re rk rr =>
-      simp only [Tree.popMax] at h
       cases hp : (Tree.node rl re rk rr).popMax with
-      | none => simp [hp] at h
+      | none => have := popMax_isSome rl re rk rr; simp [hp] at this
       | some v =>
         obtain ⟨r', p', pk'⟩ := v
-        simp only [hp, Option.some.injEq, Prod.mk.injEq] at h
+        rw [popMax_node_right _ _ _ _ _ _ _ _ _ _ hp] at h
+        simp only [Option.some.injEq, Prod.mk.injEq] at h
         obtain ⟨rfl, rfl, rfl⟩ := h
         have sp := ihr r' p' pk' hp
         refine ⟨?_, ?_, ?_, ?_, ?_⟩
@@ -232,16 +248,6 @@ theorem popMax_spec : ∀ (t t' : Tree) (p : Entry) (pk : Tree), t.popMax = some
           | eq => rfl
           | lt => rfl
           | gt => exact sp.others hr n hne
-
-theorem popMax_isSome (l : Tree) (e : Entry) (k r : Tree) : ((Tree.node l e k r).popMax).isSome := by
-  induction r generalizing l e k with
-  | leaf => simp [Tree.popMax]
-  | node rl re rk rr _ _ ih =>
-    simp only [Tree.popMax]
-    have := ih rl re rk
-    cases h : (Tree.node rl re rk rr).popMax with
-    | none => simp [h] at this
-    | some v => simp
 
 theorem find?_removeRoot_self {l r k : Tree} {e : Entry} (h : (Tree.node l e k r).OrderedSib) :
     ((Tree.node l e k r).removeRoot).find? e.name = none := by
@@ -494,16 +500,17 @@ theorem rb_popMax : ∀ (t t' : Tree) (p : Entry) (pk : Tree), t.popMax = some (
     obtain ⟨hl, hr, hc⟩ := hrb
     cases r with
     | leaf =>
-      simp only [Tree.popMax, Option.some.injEq, Prod.mk.injEq] at h
+      rw [popMax_leaf_right] at h
+      simp only [Option.some.injEq, Prod.mk.injEq] at h
       obtain ⟨rfl, rfl, rfl⟩ := h
       exact ⟨rbSib_paintRoot hl, fun hh => by rw [isRed_paintRoot] at hh; simp at hh⟩
     | node rl re rk rr =>
-      simp only [Tree.popMax] at h
       cases hp : (Tree.node rl re rk rr).popMax with
-      | none => simp [hp] at h
+      | none => have := popMax_isSome rl re rk rr; simp [hp] at this
       | some v =>
         obtain ⟨r', p', pk'⟩ := v
-        simp only [hp, Option.some.injEq, Prod.mk.injEq] at h
+        rw [popMax_node_right _ _ _ _ _ _ _ _ _ _ hp] at h
+        simp only [Option.some.injEq, Prod.mk.injEq] at h
         obtain ⟨rfl, rfl, rfl⟩ := h
         have sp := ihr r' p' pk' hp hr
         refine ⟨⟨hl, sp.1, fun hb => ⟨(hc hb).1, ?_⟩⟩, fun h => h⟩
